@@ -32,7 +32,7 @@ var stdInterp = []string{
 
 // extraInterp lists third-party packages interpreted from source.
 var extraInterp = []string{
-	"github.com/go-errors/errors", "github.com/pkg/errors", "github.com/arr-ai/frozen", "github.com/arr-ai/hash", "github.com/arr-ai/wbnf/parser",
+	"github.com/go-errors/errors", "github.com/pkg/errors", "github.com/arr-ai/frozen", "github.com/arr-ai/hash", "github.com/arr-ai/wbnf/parser", "github.com/spf13/afero",
 }
 
 // Load builds the SSA program for the requested packages with the model overlays applied.
